@@ -158,7 +158,7 @@ def _kind(x):
     return c01.err_kind(x)
 
 
-def deliver(rigs, ser, pos, v):
+def deliver(rigs, ser, pos, v, loose=False):
     """send `v` through position `pos`; -> (('ok', normalised tree) | ('err', kind), raw value, exception)"""
     from Pyro5 import client
     rig = rigs.get(ser)
@@ -196,7 +196,7 @@ def deliver(rigs, ser, pos, v):
         rigs.drop(ser)             # the proxy may have released its connection
         return ("err", _kind(x)), None, x
     try:
-        return ("ok", V.norm(V.tree(got))), got, None
+        return ("ok", V.norm(V.tree(got), loose)), got, None
     except V.Unsupported as u:
         return ("ok", ("?", str(u))), got, None
 
@@ -336,9 +336,9 @@ def check_value(ctx, ser, v, tr=None):
     from props import c01
     s = serializers.serializers[ser]
     python_only = tr is None
-    res, res_raw = c01.outcome(lambda: s.loads(s.dumps(v)))
-    arg, _ = c01.outcome(lambda: s.loadsCall(s.dumpsCall("o", "m", (v,), {}))[2][0])
-    kw, _ = c01.outcome(lambda: s.loadsCall(s.dumpsCall("o", "m", (), {"k": v}))[3]["k"])
+    res, res_raw = c01.outcome(lambda: s.loads(s.dumps(v)), True)
+    arg, _ = c01.outcome(lambda: s.loadsCall(s.dumpsCall("o", "m", (v,), {}))[2][0], True)
+    kw, _ = c01.outcome(lambda: s.loadsCall(s.dumpsCall("o", "m", (), {"k": v}))[3]["k"], True)
     ctx.evaluations += 1
     case = _case(ser, tr) if not python_only else {"serializer": ser, "python_value": repr(v)}
     for name, got in (("positional", arg), ("keyword", kw)):
@@ -354,12 +354,12 @@ def check_value(ctx, ser, v, tr=None):
     if python_only:
         return
     if V.is_lossless(tr):
-        if res != ("ok", V.norm(tr)):
+        if res != ("ok", V.norm(tr, True)):
             ctx.fail("lossless-changed-%s" % ser, "%s: lossless-core value changed on the wire: sent %s got %s"
                      % (ser, repr(V.norm(tr))[:200], repr(res)[:200]), case)
             return
     if res[0] == "ok":
-        again, _ = c01.outcome(lambda: s.loads(s.dumps(res_raw)))
+        again, _ = c01.outcome(lambda: s.loads(s.dumps(res_raw)), True)
         if again != res:
             ctx.fail("not-idempotent-%s" % ser, "%s: applying the type mapping twice changes the value: once=%s twice=%s"
                      % (ser, repr(res)[:200], repr(again)[:200]), case)
@@ -402,11 +402,11 @@ def e2e_oracle(ctx):
 
 def _e2e_check(ctx, rigs, ser, comp, v):
     tr = V.tree(v)
-    want = ("ok", V.norm(tr))
+    want = ("ok", V.norm(tr, True))
     lossless = V.is_lossless(tr)
     obs = {}
     for pos in POSITIONS:
-        out, _, exc = deliver(rigs, ser, pos, v)
+        out, _, exc = deliver(rigs, ser, pos, v, True)
         ctx.evaluations += 1
         obs[pos] = out
         case = _case(ser, tr, position=pos, compression=comp)
